@@ -111,7 +111,13 @@ def run(ctx):
     # the checker the result must pass is verified against the same table (C14's rule set)
     from . import c14
 
-    c14.run(ctx.sub("DEP-C14"))
+    c14.run(ctx.sub("DEP-C14"), deps=False)
+    # "once wrapped ... after threshold signing it verifies as successor": the wrapped (and then
+    # signed) payload must not change when the caller goes on using the objects it passed to the
+    # builder (C12-R7, re-evaluated here)
+    from .c12 import wrap_isolation
+
+    wrap_isolation(ctx.sub("DEP-C12"), "R7")
 
     # ---- R3 root wrapper
     rm = eng.walk("metadata_construction.build_root_metadata")
